@@ -1,0 +1,23 @@
+//go:build verif
+
+package frugal
+
+import "github.com/apache/thrift/lib/go/thrift"
+
+// Hooks for the C05 framing-layer harness (add-only, build tag verif).
+
+// VerifD05AdapterReadFrame runs fAdapterTransport.readFrame on the given
+// framed transport.
+func VerifD05AdapterReadFrame(framed *TFramedTransport) ([]byte, error) {
+	return (&fAdapterTransport{}).readFrame(framed)
+}
+
+// VerifD05ReadRequestFrame runs readRequestFrame of the simple server.
+func VerifD05ReadRequestFrame(framed *TFramedTransport) ([]byte, error) {
+	return readRequestFrame(framed)
+}
+
+// VerifD05Accept runs FSimpleServer.accept on one client connection.
+func VerifD05Accept(p *FSimpleServer, client thrift.TTransport) error {
+	return p.accept(client)
+}
